@@ -13,6 +13,7 @@ from funsor.interpretations import (
     eager,
     lazy,
     normalize_base,
+    reflect,
 )
 from funsor.interpreter import get_interpretation
 from funsor.ops import DISTRIBUTIVE_OPS, AssociativeOp
@@ -25,11 +26,29 @@ unfold_base = DispatchedInterpretation()
 unfold = PrioritizedInterpretation(unfold_base, normalize_base, lazy)
 
 
+def _rename_conflicting_reduced_vars(v, other_names):
+    # Variables bound by v must be renamed before v is fused with terms that
+    # mention the same names, e.g. when one lazy reduction occurs twice.
+    conflicts = [var.name for var in v.reduced_vars if var.name in other_names]
+    if not conflicts:
+        return v
+    alpha_subs = {
+        name: interpreter.gensym(name.split("__BOUND")[0] + "__BOUND")
+        for name in conflicts
+    }
+    return reflect.interpret(Contraction, *v._alpha_convert(alpha_subs))
+
+
 @unfold.register(Contraction, AssociativeOp, AssociativeOp, frozenset, tuple)
 def unfold_contraction_generic_tuple(red_op, bin_op, reduced_vars, terms):
     for i, v in enumerate(terms):
         if not isinstance(v, Contraction):
             continue
+
+        other_names = {var.name for var in reduced_vars}
+        for t in terms[:i] + terms[i + 1 :]:
+            other_names.update(t.inputs)
+        v = _rename_conflicting_reduced_vars(v, other_names)
 
         if v.red_op is ops.null and (v.bin_op, bin_op) in DISTRIBUTIVE_OPS:
             # a * e * (b + c + d) -> (a * e * b) + (a * e * c) + (a * e * d)
